@@ -48,7 +48,7 @@ CHECKS = {
  "C09": ("exploration",
          "model-based testing over histories: pre-populated graph + 1-3 execute_into calls, map/set graph model advanced by the reference interpreter, isomorphism with existing nodes fixed",
          "Histories on one graph (API pre-population with attributed edges, then up to three execute_into calls in either mode with collision-heavy generated programs and existing nodes handed back as globals) are compared after every call with a map/set model: existing nodes, edges and attribute values intact, new nodes numbered after them, one edge per pair, ascending edge iteration, conflicts fail. Exploration over histories is the right level for a stateful accumulation contract.",
-         "Trusted: the reference interpreter, graph isomorphism with a pinned prefix. One tree per history; state after a failed call only checked structurally.",
+         "Trusted: the reference interpreter, graph isomorphism with a pinned prefix. Generated histories use one tree (sixteen fixed histories use three different trees and files); state after a failed call only checked structurally.",
          "DESIGN.md §5 C09"),
  "C10": ("exploration",
          "reference-model property testing of scan: generated arm lists x subjects, spec-style matching oracle, both interpreters",
